@@ -492,6 +492,36 @@ def build(case, picosvgs=None, keep=None):
         shutil.rmtree(tmp, ignore_errors=True)
 
 
+def max_transform_nesting(font):
+    """largest number of transform paints (PaintTransform .. PaintSkewAroundCenter, formats 12-31) above a PaintGlyph in the COLRv1 graph"""
+    if "COLR" not in font or font["COLR"].version == 0:
+        return 0
+    t = font["COLR"].table
+    layers = t.LayerList.Paint if t.LayerList else []
+    best = 0
+
+    def walk(p, n):
+        nonlocal best
+        f = p.Format
+        if f == 10:
+            best = max(best, n)
+            return
+        if f == 1:
+            for q in layers[p.FirstLayerIndex:p.FirstLayerIndex + p.NumLayers]:
+                walk(q, n)
+            return
+        if 12 <= f <= 31:
+            n += 1
+        for attr in ("Paint", "SourcePaint", "BackdropPaint"):
+            ch = getattr(p, attr, None)
+            if ch is not None:
+                walk(ch, n)
+
+    for rec in (t.BaseGlyphList.BaseGlyphPaintRecord if t.BaseGlyphList else []):
+        walk(rec.Paint, 0)
+    return best
+
+
 # ------------------------------------------------------------------------------------------
 # C15 pipeline check: CPAL + palette indices of a real COLR font
 # ------------------------------------------------------------------------------------------
